@@ -593,3 +593,58 @@ func (b *Bound) NewValue(v *SVal) reflect.Value {
 
 // spareCap: a deterministic amount of spare capacity for lowered slices.
 func spareCap(n int) int { return [4]int{0, 3, 0, 1}[n%4] }
+
+// CheckHeaders verifies that every slice reachable from the struct is well formed
+// (len <= cap): a decoder that writes a string header over a slice leaves cap == 0.
+func (b *Bound) CheckHeaders(rv reflect.Value) error {
+	var val func(ts *TypeSpec, rv reflect.Value, p string) error
+	val = func(ts *TypeSpec, rv reflect.Value, p string) error {
+		switch ts.Kind {
+		case KBinary:
+			if rv.Len() > rv.Cap() {
+				return fmt.Errorf("%s: binary with len %d > cap %d", p, rv.Len(), rv.Cap())
+			}
+		case KList, KSet:
+			if rv.Len() > rv.Cap() {
+				return fmt.Errorf("%s: slice with len %d > cap %d", p, rv.Len(), rv.Cap())
+			}
+			for i := 0; i < rv.Len(); i++ {
+				if err := val(ts.Elem, rv.Index(i), fmt.Sprintf("%s[%d]", p, i)); err != nil {
+					return err
+				}
+			}
+		case KMap:
+			it := rv.MapRange()
+			for it.Next() {
+				if err := val(ts.Key, it.Key(), p+"{k}"); err != nil {
+					return err
+				}
+				if err := val(ts.Elem, it.Value(), p+"{v}"); err != nil {
+					return err
+				}
+			}
+		case KStruct:
+			if ts.Ptr {
+				if rv.IsNil() {
+					return nil
+				}
+				rv = rv.Elem()
+			}
+			return Bind(ts.SS()).CheckHeaders(rv)
+		}
+		return nil
+	}
+	for _, f := range b.Spec.Fields {
+		fv := rv.Field(b.idx[f.ID])
+		if f.GoPtr {
+			if fv.IsNil() {
+				continue
+			}
+			fv = fv.Elem()
+		}
+		if err := val(f.Type, fv, b.Type.Field(b.idx[f.ID]).Name); err != nil {
+			return err
+		}
+	}
+	return nil
+}
